@@ -26,7 +26,9 @@ klass("RLScheduler",
               "_agent_thread": "opt[opaque:Thread]", "_stopped": "bool", "_halton_sampler_id": "int",
               "_samplers": "seq[opaque:BaseSampler]"},
       invariant=["0 <= self._halton_sampler_id and self._halton_sampler_id < len(self._samplers)",
-                 "ghost.n_samplers == len(self._samplers)"])
+                 # the designated bootstrap sampler is history-free: a Halton sampler (established by the constructor)
+                 "type(self._samplers[self._halton_sampler_id]).__name__ == 'HaltonSampler'"],
+      ghost_link=["ghost.n_samplers == len(self._samplers)"])
 
 # ---- environment (agent thread side) -------------------------------------------------------------------------
 contract(f"{EB}::CalibrationEnv.reset_state", abstract=True, params={}, returns="any", ensures=[], modifies=[], props=["C10"])
